@@ -8,39 +8,40 @@ Import ListNotations.
 
 Definition all_slots (fam : family) : list nat := module_slots all_on fam.
 
-(* the tag an entry of slot sl must carry when the object holds versions (v, w) *)
-Definition cur_tag (fam : family) (v w sl : nat) : tag :=
-  mkTag v (if f_ddep fam sl then w else 0) 0.
-Definition entry_cur (fam : family) (v w : nat) (e : entry) : Prop :=
-  e_tag e = cur_tag fam v w (e_slot e).
+(* the tag an entry of slot sl must carry when the object holds versions (v, w) and the
+   staleness guard has recorded the unkeyed-settings value k *)
+Definition cur_tag (fam : family) (v w k sl : nat) : tag :=
+  mkTag v (if f_ddep fam sl then w else 0) (if mem sl (f_ck_slots fam) then k else 0).
+Definition entry_cur (fam : family) (v w k : nat) (e : entry) : Prop :=
+  e_tag e = cur_tag fam v w k (e_slot e).
 Definition slot_ok (fam : family) (e : entry) : Prop := In (e_slot e) (all_slots fam).
 
-(* every cache entry lives in a slot some module's _clear_cache owns; while in eval mode every
-   entry was computed from the current parameters and data under keyed settings *)
+(* the object holds its data; every cache entry lives in a slot some module's _clear_cache owns;
+   while in eval mode every entry was computed from the current parameters and data, and every
+   entry whose content depends on an unkeyed setting was computed under the value the staleness
+   guard has recorded *)
 Definition Inv (fam : family) (s : state) : Prop :=
+  lost s = false /\
   Forall (slot_ok fam) (cch s) /\
-  (training s = false -> Forall (entry_cur fam (pv s) (dv s)) (cch s)).
+  (training s = false -> Forall (entry_cur fam (pv s) (dv s) (sck s)) (cch s)).
 
 (* ---- decidable side conditions on a family descriptor ---- *)
-Definition mem (x : nat) (l : list nat) : bool := existsb (Nat.eqb x) l.
 Definition use_wf (fam : family) (u : use) : bool :=
   mem (u_slot u) (all_slots fam) &&
   match f_parent fam (u_slot u) with
-  | Some ps => Bool.eqb (f_ddep fam ps) (f_ddep fam (u_slot u))
+  | Some ps => Bool.eqb (f_ddep fam ps) (f_ddep fam (u_slot u)) &&
+               Bool.eqb (mem ps (f_ck_slots fam)) (mem (u_slot u) (f_ck_slots fam))
   | None => true
   end.
-Definition use_keyed (u : use) : bool := u_ck u =? 0.
-Definition cfg_keyed (fam : family) (c : nat) : bool := forallb use_keyed (f_uses fam c).
+(* consultations made outside a guarded call (prior-mode calls, get_fantasy_model) must not touch
+   a slot whose content depends on the unkeyed setting *)
+Definition use_unguarded_ok (fam : family) (u : use) : bool := negb (mem (u_slot u) (f_ck_slots fam)).
 Definition wf_family (fam : family) : bool :=
   forallb (fun c => forallb (use_wf fam) (f_uses fam c)) (seq 0 (f_ncfg fam)) &&
-  forallb (fun u => use_wf fam u && use_keyed u)
-          (f_uses fam 0 ++ f_train_uses fam ++ f_prior_uses fam ++ f_fant_uses fam) &&
-  forallb (fun sl => implb (f_ddep fam sl) (mem sl (f_strat_slots fam))) (all_slots fam).
-
-(* settings that are not part of any cache key are held at their default in the history *)
-Definition op_keyed (fam : family) (o : op) : bool :=
-  match o with OPredict c => cfg_keyed fam c | _ => true end.
-Definition keyed_history (fam : family) (h : list op) : bool := forallb (op_keyed fam) h.
+  forallb (use_wf fam) (f_uses fam 0 ++ f_train_uses fam) &&
+  forallb (fun u => use_wf fam u && use_unguarded_ok fam u) (f_prior_uses fam ++ f_fant_uses fam) &&
+  forallb (fun sl => implb (f_ddep fam sl) (mem sl (f_strat_slots fam))) (all_slots fam) &&
+  forallb (fun sl => mem sl (f_ck_drop fam)) (f_ck_slots fam).
 
 (* ---- list / cache lemmas ---- *)
 Lemma mem_In x l : mem x l = true <-> In x l.
@@ -91,40 +92,44 @@ Qed.
 (* ---- one consultation from a valid cache returns a current entry and keeps the cache valid *)
 Section Consult.
 Variable fam : family.
-Variables v w : nat.
+Variables v w k : nat.      (* versions held; settings value recorded by the guard *)
 Variable tr : bool.
 
-Let P (c : cache) : Prop := Forall (slot_ok fam) c /\ Forall (entry_cur fam v w) c.
+Let P (c : cache) : Prop := Forall (slot_ok fam) c /\ Forall (entry_cur fam v w k) c.
 
-Lemma new_tag_cur c u cc :
-  P c -> use_wf fam u = true -> use_keyed u = true ->
-  new_tag fam (mkSt v w tr cc) c u = cur_tag fam v w (u_slot u).
+(* the consultation happens under settings value ck; either that IS the recorded value, or the
+   slot's content does not depend on it *)
+Definition ck_ok (ck : nat) (u : use) : Prop := ck = k \/ mem (u_slot u) (f_ck_slots fam) = false.
+
+Lemma new_tag_cur ck c u cc k0 lo :
+  P c -> use_wf fam u = true -> ck_ok ck u ->
+  new_tag fam (mkSt v w tr cc k0 lo) ck c u = cur_tag fam v w k (u_slot u).
 Proof.
-  intros [_ Hc] Hwf Hk. unfold new_tag. cbn [pv dv].
-  unfold use_keyed in Hk. apply Nat.eqb_eq in Hk.
+  intros [_ Hc] Hwf Hk. unfold new_tag.
   unfold use_wf in Hwf. apply andb_prop in Hwf. destruct Hwf as [_ Hpar].
-  destruct (f_parent fam (u_slot u)) as [ps|].
-  - destruct (lookup_slot ps c) as [pe|] eqn:Hl.
-    + destruct (lookup_slot_In _ _ _ Hl) as [Hin Hsl].
-      rewrite Forall_forall in Hc. rewrite (Hc pe Hin). unfold cur_tag.
-      rewrite Hsl. apply Bool.eqb_prop in Hpar. rewrite Hpar. reflexivity.
-    + unfold cur_tag. rewrite Hk. reflexivity.
-  - unfold cur_tag. rewrite Hk. reflexivity.
+  assert (Hown : own_tag fam (mkSt v w tr cc k0 lo) ck (u_slot u) = cur_tag fam v w k (u_slot u)).
+  { unfold own_tag, cur_tag. cbn [pv dv]. destruct Hk as [-> | Hm]; [reflexivity|]. rewrite Hm. reflexivity. }
+  destruct (f_parent fam (u_slot u)) as [ps|]; [|exact Hown].
+  destruct (lookup_slot ps c) as [pe|] eqn:Hl; [|exact Hown].
+  destruct (lookup_slot_In _ _ _ Hl) as [Hin Hsl].
+  rewrite Forall_forall in Hc. rewrite (Hc pe Hin). unfold cur_tag. rewrite Hsl.
+  apply andb_prop in Hpar. destruct Hpar as [H1 H2].
+  apply Bool.eqb_prop in H1. apply Bool.eqb_prop in H2. rewrite H1, H2. reflexivity.
 Qed.
 
-Lemma consult_cur g c u cc c' e :
-  P c -> use_wf fam u = true -> use_keyed u = true ->
-  consult all_on fam (mkSt v w tr cc) g c u = (c', e) ->
-  P c' /\ obs e = (u_key u, cur_tag fam v w (u_slot u)).
+Lemma consult_cur ck g c u cc k0 lo c' e :
+  P c -> use_wf fam u = true -> ck_ok ck u ->
+  consult all_on fam (mkSt v w tr cc k0 lo) ck g c u = (c', e) ->
+  P c' /\ obs e = (u_key u, cur_tag fam v w k (u_slot u)).
 Proof.
-  intros HP Hwf Hk. pose proof (new_tag_cur c u cc HP Hwf Hk) as Hnt.
+  intros HP Hwf Hk. pose proof (new_tag_cur ck c u cc k0 lo HP Hwf Hk) as Hnt.
   destruct HP as [Hs Hc].
   assert (Hslot : In (u_slot u) (all_slots fam)).
   { unfold use_wf in Hwf. apply andb_prop in Hwf. apply mem_In. tauto. }
-  set (fe := mkEntry (u_slot u) (u_key u) (new_tag fam (mkSt v w tr cc) c u) g).
+  set (fe := mkEntry (u_slot u) (u_key u) (new_tag fam (mkSt v w tr cc k0 lo) ck c u) g).
   assert (Hfe_s : slot_ok fam fe) by exact Hslot.
-  assert (Hfe_c : entry_cur fam v w fe) by (unfold entry_cur, fe; cbn [e_tag e_slot]; exact Hnt).
-  assert (Hfe_o : obs fe = (u_key u, cur_tag fam v w (u_slot u))).
+  assert (Hfe_c : entry_cur fam v w k fe) by (unfold entry_cur, fe; cbn [e_tag e_slot]; exact Hnt).
+  assert (Hfe_o : obs fe = (u_key u, cur_tag fam v w k (u_slot u))).
   { unfold obs, fe. cbn [e_key e_tag]. rewrite Hnt. reflexivity. }
   unfold consult. fold fe. cbn [p_pop all_on].
   destruct (u_single u).
@@ -146,29 +151,28 @@ Proof.
       split; constructor; assumption.
 Qed.
 
-Lemma consult_all_cur g us : forall c cc c' es,
-  P c -> forallb (fun u => use_wf fam u && use_keyed u) us = true ->
-  consult_all all_on fam (mkSt v w tr cc) g c us = (c', es) ->
-  P c' /\ map obs es = map (fun u => (u_key u, cur_tag fam v w (u_slot u))) us.
+Lemma consult_all_cur ck g us : forall c cc k0 lo c' es,
+  P c -> forallb (use_wf fam) us = true -> (forall u, In u us -> ck_ok ck u) ->
+  consult_all all_on fam (mkSt v w tr cc k0 lo) ck g c us = (c', es) ->
+  P c' /\ map obs es = map (fun u => (u_key u, cur_tag fam v w k (u_slot u))) us.
 Proof.
-  induction us as [|u r IH]; intros c cc c' es HP Hus; cbn [consult_all].
+  induction us as [|u r IH]; intros c cc k0 lo c' es HP Hus Hck; cbn [consult_all].
   - intros H. injection H as <- <-. split; [exact HP | reflexivity].
-  - cbn [forallb] in Hus. apply andb_prop in Hus. destruct Hus as [Hu Hr].
-    apply andb_prop in Hu. destruct Hu as [Hwf Hk].
-    destruct (consult all_on fam (mkSt v w tr cc) g c u) as [c1 e] eqn:H1.
-    destruct (consult_all all_on fam (mkSt v w tr cc) g c1 r) as [c2 es2] eqn:H2.
+  - cbn [forallb] in Hus. apply andb_prop in Hus. destruct Hus as [Hwf Hr].
+    destruct (consult all_on fam (mkSt v w tr cc k0 lo) ck g c u) as [c1 e] eqn:H1.
+    destruct (consult_all all_on fam (mkSt v w tr cc k0 lo) ck g c1 r) as [c2 es2] eqn:H2.
     intros H. injection H as <- <-.
-    destruct (consult_cur g c u cc c1 e HP Hwf Hk H1) as [HP1 Ho].
-    destruct (IH c1 cc c2 es2 HP1 Hr H2) as [HP2 Hm].
+    destruct (consult_cur ck g c u cc k0 lo c1 e HP Hwf (Hck u (or_introl eq_refl)) H1) as [HP1 Ho].
+    destruct (IH c1 cc k0 lo c2 es2 HP1 Hr (fun x Hx => Hck x (or_intror Hx)) H2) as [HP2 Hm].
     split; [exact HP2|]. cbn [map]. rewrite Ho, Hm. reflexivity.
 Qed.
 
 End Consult.
 
 (* only the slots part (used in training mode, where entries may be stale) *)
-Lemma consult_slots fam pts s g c u c' e :
+Lemma consult_slots fam pts s ck g c u c' e :
   Forall (slot_ok fam) c -> use_wf fam u = true ->
-  consult pts fam s g c u = (c', e) -> Forall (slot_ok fam) c'.
+  consult pts fam s ck g c u = (c', e) -> Forall (slot_ok fam) c'.
 Proof.
   intros Hs Hwf.
   assert (Hslot : In (u_slot u) (all_slots fam)).
@@ -183,18 +187,18 @@ Proof.
     constructor; [exact Hslot | exact Hs].
 Qed.
 
-Lemma consult_all_slots fam pts s g us : forall c c' es,
+Lemma consult_all_slots fam pts s ck g us : forall c c' es,
   Forall (slot_ok fam) c -> forallb (use_wf fam) us = true ->
-  consult_all pts fam s g c us = (c', es) -> Forall (slot_ok fam) c'.
+  consult_all pts fam s ck g c us = (c', es) -> Forall (slot_ok fam) c'.
 Proof.
   induction us as [|u r IH]; intros c c' es Hs Hus; cbn [consult_all].
   - intros H. injection H as <- <-. exact Hs.
   - cbn [forallb] in Hus. apply andb_prop in Hus. destruct Hus as [Hu Hr].
-    destruct (consult pts fam s g c u) as [c1 e] eqn:H1.
-    destruct (consult_all pts fam s g c1 r) as [c2 es2] eqn:H2.
+    destruct (consult pts fam s ck g c u) as [c1 e] eqn:H1.
+    destruct (consult_all pts fam s ck g c1 r) as [c2 es2] eqn:H2.
     intros H. injection H as <- <-.
     apply (IH c1 c2 es2); [|exact Hr|exact H2].
-    exact (consult_slots fam pts s g c u c1 e Hs Hu H1).
+    exact (consult_slots fam pts s ck g c u c1 e Hs Hu H1).
 Qed.
 
 
@@ -210,62 +214,100 @@ Section WF.
 Variable fam : family.
 Hypothesis Hwf : wf_family fam = true.
 
+Lemma wf_parts :
+  forallb (fun c => forallb (use_wf fam) (f_uses fam c)) (seq 0 (f_ncfg fam)) = true /\
+  forallb (use_wf fam) (f_uses fam 0 ++ f_train_uses fam) = true /\
+  forallb (fun u => use_wf fam u && use_unguarded_ok fam u) (f_prior_uses fam ++ f_fant_uses fam) = true /\
+  forallb (fun sl => implb (f_ddep fam sl) (mem sl (f_strat_slots fam))) (all_slots fam) = true /\
+  forallb (fun sl => mem sl (f_ck_drop fam)) (f_ck_slots fam) = true.
+Proof.
+  unfold wf_family in Hwf.
+  apply andb_prop in Hwf. destruct Hwf as [H H5].
+  apply andb_prop in H. destruct H as [H H4].
+  apply andb_prop in H. destruct H as [H H3].
+  apply andb_prop in H. destruct H as [H1 H2]. tauto.
+Qed.
+
 Lemma wf_cfg c : c < f_ncfg fam -> forallb (use_wf fam) (f_uses fam c) = true.
 Proof.
-  intros Hc. unfold wf_family in Hwf. apply andb_prop in Hwf. destruct Hwf as [H _].
-  apply andb_prop in H. destruct H as [H _]. rewrite forallb_forall in H. apply H. apply in_seq. lia.
+  intros Hc. destruct wf_parts as [H _]. rewrite forallb_forall in H. apply H. apply in_seq. lia.
 Qed.
-Lemma wf_lists :
-  forallb (fun u => use_wf fam u && use_keyed u) (f_uses fam 0) = true /\
-  forallb (fun u => use_wf fam u && use_keyed u) (f_train_uses fam) = true /\
-  forallb (fun u => use_wf fam u && use_keyed u) (f_prior_uses fam) = true /\
-  forallb (fun u => use_wf fam u && use_keyed u) (f_fant_uses fam) = true.
-Proof.
-  unfold wf_family in Hwf. apply andb_prop in Hwf. destruct Hwf as [H _].
-  apply andb_prop in H. destruct H as [_ H].
-  apply forallb_app in H. destruct H as [H0 H]. apply forallb_app in H. destruct H as [H1 H].
-  apply forallb_app in H. destruct H as [H2 H3]. tauto.
-Qed.
+Lemma wf_cfg0 : forallb (use_wf fam) (f_uses fam 0) = true.
+Proof. destruct wf_parts as [_ [H _]]. apply forallb_app in H. tauto. Qed.
+Lemma wf_train : forallb (use_wf fam) (f_train_uses fam) = true.
+Proof. destruct wf_parts as [_ [H _]]. apply forallb_app in H. tauto. Qed.
+Lemma wf_prior : forallb (fun u => use_wf fam u && use_unguarded_ok fam u) (f_prior_uses fam) = true.
+Proof. destruct wf_parts as [_ [_ [H _]]]. apply forallb_app in H. tauto. Qed.
+Lemma wf_fant : forallb (fun u => use_wf fam u && use_unguarded_ok fam u) (f_fant_uses fam) = true.
+Proof. destruct wf_parts as [_ [_ [H _]]]. apply forallb_app in H. tauto. Qed.
 Lemma wf_ddep sl : In sl (all_slots fam) -> f_ddep fam sl = true -> In sl (f_strat_slots fam).
 Proof.
-  intros Hin Hd. unfold wf_family in Hwf. apply andb_prop in Hwf. destruct Hwf as [_ H].
+  intros Hin Hd. destruct wf_parts as [_ [_ [_ [H _]]]].
   rewrite forallb_forall in H. specialize (H sl Hin). rewrite Hd in H. cbn [implb] in H. apply mem_In. exact H.
 Qed.
-Lemma both_of c : forallb (use_wf fam) (f_uses fam c) = true -> cfg_keyed fam c = true ->
-  forallb (fun u => use_wf fam u && use_keyed u) (f_uses fam c) = true.
+Lemma wf_ck_drop sl : mem sl (f_ck_slots fam) = true -> In sl (f_ck_drop fam).
 Proof.
-  unfold cfg_keyed. rewrite !forallb_forall. intros H1 H2 x Hx. rewrite (H1 x Hx), (H2 x Hx). reflexivity.
+  intros Hm. destruct wf_parts as [_ [_ [_ [_ H]]]].
+  rewrite forallb_forall in H. apply mem_In. apply H. apply mem_In. exact Hm.
 Qed.
-Lemma only_wf us : forallb (fun u => use_wf fam u && use_keyed u) us = true -> forallb (use_wf fam) us = true.
+Lemma only_wf us : forallb (fun u => use_wf fam u && use_unguarded_ok fam u) us = true -> forallb (use_wf fam) us = true.
 Proof. apply forallb_weaken. intros x H. apply andb_prop in H. tauto. Qed.
+Lemma unguarded_ck_ok k ck us :
+  forallb (fun u => use_wf fam u && use_unguarded_ok fam u) us = true -> forall u, In u us -> ck_ok fam k ck u.
+Proof.
+  intros H u Hu. rewrite forallb_forall in H. specialize (H u Hu). apply andb_prop in H. destruct H as [_ H].
+  right. unfold use_unguarded_ok in H. apply negb_true_iff in H. exact H.
+Qed.
+
+(* an entry outside the guard's drop list does not depend on the unkeyed setting *)
+Lemma cur_tag_not_ck v w k k' sl : ~ In sl (f_ck_drop fam) -> cur_tag fam v w k sl = cur_tag fam v w k' sl.
+Proof.
+  intros Hn. unfold cur_tag. destruct (mem sl (f_ck_slots fam)) eqn:Hm; [|reflexivity].
+  exfalso. apply Hn. apply wf_ck_drop. exact Hm.
+Qed.
+
+(* the staleness guard re-establishes validity for the current settings value *)
+Lemma guard_valid v w k ck c :
+  Forall (slot_ok fam) c -> Forall (entry_cur fam v w k) c ->
+  let c1 := if negb (k =? ck) then drop (f_ck_drop fam) c else c in
+  Forall (slot_ok fam) c1 /\ Forall (entry_cur fam v w ck) c1.
+Proof.
+  intros Hs Hc. cbv zeta. destruct (k =? ck) eqn:E; cbn [negb].
+  - apply Nat.eqb_eq in E. subst ck. split; assumption.
+  - split; [apply drop_Forall; exact Hs|].
+    rewrite Forall_forall in *. intros e He. destruct (drop_not_in _ _ _ He) as [Hin Hns].
+    unfold entry_cur in *. rewrite (Hc e Hin). apply cur_tag_not_ck. exact Hns.
+Qed.
 
 (* ---- eval-mode call from a valid state ---- *)
 Lemma call_eval s g c s1 es :
-  Inv fam s -> training s = false -> c < f_ncfg fam -> cfg_keyed fam c = true ->
+  Inv fam s -> training s = false -> forallb (use_wf fam) (f_uses fam c) = true ->
   call all_on fam s g c = (s1, es) ->
-  pv s1 = pv s /\ dv s1 = dv s /\ training s1 = false /\
-  Forall (slot_ok fam) (cch s1) /\ Forall (entry_cur fam (pv s) (dv s)) (cch s1) /\
-  map obs es = map (fun u => (u_key u, cur_tag fam (pv s) (dv s) (u_slot u))) (f_uses fam c).
+  pv s1 = pv s /\ dv s1 = dv s /\ training s1 = false /\ lost s1 = false /\ sck s1 = f_ck fam c /\
+  Forall (slot_ok fam) (cch s1) /\ Forall (entry_cur fam (pv s) (dv s) (f_ck fam c)) (cch s1) /\
+  map obs es = map (fun u => (u_key u, cur_tag fam (pv s) (dv s) (f_ck fam c) (u_slot u))) (f_uses fam c).
 Proof.
-  intros [Hs Hc] Htr Hcn Hck. unfold call. rewrite Htr.
-  destruct s as [v w tr cc]. cbn [pv dv training cch] in *. subst tr.
-  destruct (consult_all all_on fam (mkSt v w false cc) g cc (f_uses fam c)) as [c2 es2] eqn:H2.
+  intros [Hl [Hs Hc]] Htr Hcn. unfold call. rewrite Htr, Hl. cbn [p_stale all_on andb].
+  destruct s as [v w tr cc k lo]. cbn [pv dv training cch sck lost] in *. subst tr lo.
+  destruct (guard_valid v w k (f_ck fam c) cc Hs (Hc eq_refl)) as [Hs1 Hc1].
+  set (c1 := if negb (k =? f_ck fam c) then drop (f_ck_drop fam) cc else cc) in *.
+  destruct (consult_all all_on fam (mkSt v w false cc k false) (f_ck fam c) g c1 (f_uses fam c)) as [c2 es2] eqn:H2.
   intros H. injection H as <- <-.
-  destruct (consult_all_cur fam v w false g (f_uses fam c) cc cc c2 es2
-              (conj Hs (Hc eq_refl)) (both_of c (wf_cfg c Hcn) Hck) H2) as [[Hs2 Hc2] Hm].
-  cbn [set_cache pv dv training cch]. tauto.
+  destruct (consult_all_cur fam v w (f_ck fam c) false (f_ck fam c) g (f_uses fam c) c1 cc k false c2 es2
+              (conj Hs1 Hc1) Hcn (fun u _ => or_introl eq_refl) H2) as [[Hs2 Hc2] Hm].
+  cbn [set_cache_ck pv dv training cch sck lost]. tauto.
 Qed.
 
 Lemma call_train s g c s1 es :
   Inv fam s -> training s = true -> call all_on fam s g c = (s1, es) ->
-  pv s1 = pv s /\ dv s1 = dv s /\ training s1 = true /\ Forall (slot_ok fam) (cch s1).
+  pv s1 = pv s /\ dv s1 = dv s /\ training s1 = true /\ lost s1 = false /\ Forall (slot_ok fam) (cch s1).
 Proof.
-  intros [Hs _] Htr. unfold call. rewrite Htr. cbn [p_call p_vs all_on andb].
-  destruct (consult_all all_on fam s GNone (drop (f_vs_slots fam) (cch s)) (f_train_uses fam)) as [c2 es2] eqn:H2.
-  intros H. injection H as <- <-. cbn [set_cache pv dv training cch].
+  intros [Hl [Hs _]] Htr. unfold call. rewrite Htr. cbn [p_call p_vs all_on andb].
+  destruct (consult_all all_on fam s (f_ck fam c) GNone (drop (f_vs_slots fam) (cch s)) (f_train_uses fam)) as [c2 es2] eqn:H2.
+  intros H. injection H as <- <-. cbn [set_cache_ck pv dv training cch lost].
   repeat split; try assumption.
-  destruct wf_lists as [_ [Ht _]].
-  apply (consult_all_slots fam all_on s GNone (f_train_uses fam) (drop (f_vs_slots fam) (cch s)) c2 es2); [|apply only_wf; exact Ht|exact H2].
+  apply (consult_all_slots fam all_on s (f_ck fam c) GNone (f_train_uses fam) (drop (f_vs_slots fam) (cch s)) c2 es2);
+    [|exact wf_train|exact H2].
   apply drop_Forall. exact Hs.
 Qed.
 
@@ -278,25 +320,39 @@ Proof.
   destruct (is_live e && existsb (same_entry e) es); [apply HQ|]; apply H; exact Hin.
 Qed.
 
+(* an unguarded consultation (prior-mode call, get_fantasy_model) from a valid eval-mode state *)
+Lemma unguarded_eval s us c2 es2 :
+  Inv fam s -> training s = false ->
+  forallb (fun u => use_wf fam u && use_unguarded_ok fam u) us = true ->
+  consult_all all_on fam s (f_ck fam 0) GNone (cch s) us = (c2, es2) ->
+  Inv fam (set_cache s c2).
+Proof.
+  intros [Hl [Hs Hc]] Htr Hus H2.
+  destruct s as [v w tr cc k lo]. cbn [pv dv training cch sck lost] in *. subst tr lo.
+  destruct (consult_all_cur fam v w k false (f_ck fam 0) GNone us cc cc k false c2 es2
+              (conj Hs (Hc eq_refl)) (only_wf _ Hus) (unguarded_ck_ok k (f_ck fam 0) us Hus) H2) as [[Hs2 Hc2] _].
+  split; [reflexivity|]. split; cbn [set_cache cch pv dv training sck]; [exact Hs2 | intros _; exact Hc2].
+Qed.
+
 (* ---- the invariant is preserved by every admissible operation ---- *)
 Lemma Inv_step s o :
-  Inv fam s -> op_ok fam s o = true -> op_keyed fam o = true ->
+  Inv fam s -> op_ok fam s o = true ->
   Inv fam (fst (step all_on fam s o)).
 Proof.
-  intros HI Hok Hk. pose proof HI as [Hs Hc].
+  intros HI Hok. pose proof HI as [Hl [Hs Hc]].
   destruct o; cbn [step].
-  - (* Train *) cbn [p_to_train all_on]. split; cbn [cch training fst]; [|discriminate].
+  - (* Train *) cbn [p_to_train all_on]. split; [exact Hl|]. split; cbn [set_mode cch training fst]; [|discriminate].
     apply drop_Forall. exact Hs.
   - (* Eval *) cbn [p_to_eval all_on]. destruct (training s) eqn:Htr; cbn [andb fst].
     + unfold clear_modules. fold (all_slots fam). rewrite (drop_all_nil fam _ Hs).
-      split; cbn [cch]; intros; constructor.
-    + split; cbn [cch pv dv training]; [exact Hs | intros _; exact (Hc eq_refl)].
+      split; [exact Hl|]. split; cbn [set_mode cch]; intros; constructor.
+    + split; [exact Hl|]. split; cbn [set_mode cch pv dv training sck]; [exact Hs | intros _; exact (Hc eq_refl)].
   - (* Step *) cbn [op_ok] in Hok. rewrite Hok.
     destruct (call all_on fam s GNone 0) as [s1 es] eqn:H1. cbn [fst].
-    destruct (call_train s GNone 0 s1 es HI Hok H1) as [_ [_ [Ht Hs1]]].
-    split; cbn [bump_pv cch training]; [exact Hs1 | rewrite Ht; discriminate].
+    destruct (call_train s GNone 0 s1 es HI Hok H1) as [_ [_ [Ht [Hl1 Hs1]]]].
+    split; [exact Hl1|]. split; cbn [bump_pv cch training]; [exact Hs1 | rewrite Ht; discriminate].
   - (* SetData *) destruct (f_has_data fam); cbn [fst]; [|exact HI].
-    cbn [p_setdata all_on]. split; cbn [cch pv dv training].
+    cbn [p_setdata all_on]. split; [exact Hl|]. split; cbn [cch pv dv training sck].
     + apply drop_Forall. exact Hs.
     + intros Htr. specialize (Hc Htr). rewrite Forall_forall in *. intros e He.
       destruct (drop_not_in _ _ _ He) as [Hin Hns].
@@ -304,134 +360,300 @@ Proof.
       destruct (f_ddep fam (e_slot e)) eqn:Hd; [|reflexivity].
       exfalso. apply Hns. apply wf_ddep; [apply Hs; exact Hin | exact Hd].
   - (* Load *) cbn [p_load all_on fst]. unfold clear_modules. fold (all_slots fam).
-    rewrite (drop_all_nil fam _ Hs). split; cbn [cch]; intros; constructor.
+    rewrite (drop_all_nil fam _ Hs). split; [exact Hl|]. split; cbn [cch]; intros; constructor.
   - (* Fantasy *)
     destruct ((match f_fant_req fam with
                | Some sl => match lookup_slot sl (cch s) with Some _ => true | None => false end
-               | None => true end) && f_fant_ok fam &&
-              negb (existsb (fun e => in_slots (f_fant_copy fam) e &&
+               | None => true end) && f_fant_ok fam); cbn [fst]; [|exact HI].
+    destruct (negb (existsb (fun e => in_slots (f_fant_copy fam) e &&
                                       match e_g e with GNone => false | _ => true end) (cch s)));
-      cbn [fst]; [|exact HI].
-    destruct wf_lists as [_ [_ [_ Hf]]].
+      [|cbn [p_restore all_on fst]; exact HI].
+    destruct (consult_all all_on fam s (f_ck fam 0) GNone (cch s) (f_fant_uses fam)) as [c2 es2] eqn:H2.
+    cbn [fst].
     destruct (training s) eqn:Htr.
-    + destruct (consult_all all_on fam s GNone (cch s) (f_fant_uses fam)) as [c2 es2] eqn:H2.
-      cbn [fst set_cache]. split; [|unfold set_cache; cbn [training]; rewrite Htr; discriminate]. cbn [cch].
-      exact (consult_all_slots fam all_on s GNone (f_fant_uses fam) (cch s) c2 es2 Hs (only_wf _ Hf) H2).
-    + destruct s as [v w tr cc]. cbn [pv dv training cch] in *. subst tr.
-      destruct (consult_all all_on fam (mkSt v w false cc) GNone cc (f_fant_uses fam)) as [c2 es2] eqn:H2.
-      cbn [fst set_cache pv dv training cch].
-      destruct (consult_all_cur fam v w false GNone (f_fant_uses fam) cc cc c2 es2 (conj Hs (Hc eq_refl)) Hf H2)
-        as [[Hs2 Hc2] _].
-      split; cbn [cch pv dv training]; [exact Hs2 | intros _; exact Hc2].
+    + split; [exact Hl|]. split; [|unfold set_cache; cbn [training]; rewrite Htr; discriminate].
+      cbn [set_cache cch].
+      exact (consult_all_slots fam all_on s (f_ck fam 0) GNone (f_fant_uses fam) (cch s) c2 es2 Hs (only_wf _ wf_fant) H2).
+    + exact (unguarded_eval s (f_fant_uses fam) c2 es2 HI Htr wf_fant H2).
   - (* Prior *) destruct (training s) eqn:Htr; cbn [fst]; [exact HI|].
-    destruct s as [v w tr cc]. cbn [pv dv training cch] in *. subst tr.
-    destruct (consult_all all_on fam (mkSt v w false cc) GNone cc (f_prior_uses fam)) as [c2 es2] eqn:H2.
-    cbn [fst set_cache pv dv training cch].
-    destruct wf_lists as [_ [_ [Hp _]]].
-    destruct (consult_all_cur fam v w false GNone (f_prior_uses fam) cc cc c2 es2 (conj Hs (Hc eq_refl)) Hp H2)
-      as [[Hs2 Hc2] _].
-    split; cbn [cch pv dv training]; [exact Hs2 | intros _; exact Hc2].
+    destruct (consult_all all_on fam s (f_ck fam 0) GNone (cch s) (f_prior_uses fam)) as [c2 es2] eqn:H2.
+    cbn [fst]. exact (unguarded_eval s (f_prior_uses fam) c2 es2 HI Htr wf_prior H2).
   - (* Backward *)
     destruct (call all_on fam s GLive 0) as [s1 es] eqn:H1.
     destruct (training s) eqn:Htr; cbn [fst].
-    + destruct (call_train s GLive 0 s1 es HI Htr H1) as [_ [_ [Ht Hs1]]].
-      split; [exact Hs1 | rewrite Ht; discriminate].
-    + assert (Hk0 : cfg_keyed fam 0 = true).
-      { destruct wf_lists as [H0 _]. unfold cfg_keyed. revert H0. apply forallb_weaken.
-        intros x H. apply andb_prop in H. tauto. }
-      assert (Hw0 : forallb (use_wf fam) (f_uses fam 0) = true).
-      { destruct wf_lists as [H0 _]. apply only_wf. exact H0. }
-      assert (Hcall : pv s1 = pv s /\ dv s1 = dv s /\ training s1 = false /\
-                Forall (slot_ok fam) (cch s1) /\ Forall (entry_cur fam (pv s) (dv s)) (cch s1)).
-      { revert H1. unfold call. rewrite Htr.
-        destruct s as [v w tr cc]. cbn [pv dv training cch] in *. subst tr.
-        destruct (consult_all all_on fam (mkSt v w false cc) GLive cc (f_uses fam 0)) as [c2 es2] eqn:H2.
-        intros H. injection H as <- <-.
-        destruct (consult_all_cur fam v w false GLive (f_uses fam 0) cc cc c2 es2
-                    (conj Hs (Hc eq_refl)) (both_of 0 Hw0 Hk0) H2) as [[Hs2 Hc2] _].
-        cbn [set_cache pv dv training cch]. tauto. }
-      destruct Hcall as [Hp [Hd [Ht [Hs1 Hc1]]]].
+    + destruct (call_train s GLive 0 s1 es HI Htr H1) as [_ [_ [Ht [Hl1 Hs1]]]].
+      split; [exact Hl1|]. split; [exact Hs1 | rewrite Ht; discriminate].
+    + destruct (call_eval s GLive 0 s1 es HI Htr wf_cfg0 H1) as [Hp [Hd [Ht [Hl1 [Hk [Hs1 [Hc1 _]]]]]]].
       destruct (existsb is_freed es); cbn [fst].
-      * split; [exact Hs1 | intros _; rewrite Hp, Hd; exact Hc1].
+      * split; [exact Hl1|]. split; [exact Hs1 | intros _; rewrite Hp, Hd, Hk; exact Hc1].
       * cbn [p_hook all_on]. rewrite andb_true_r.
         assert (Hs2 : Forall (slot_ok fam) (free_graphs es (cch s1))).
         { apply free_graphs_Forall; [intros e g H; exact H | exact Hs1]. }
-        assert (Hc2 : Forall (entry_cur fam (pv s) (dv s)) (free_graphs es (cch s1))).
+        assert (Hc2 : Forall (entry_cur fam (pv s) (dv s) (f_ck fam 0)) (free_graphs es (cch s1))).
         { apply free_graphs_Forall; [intros e g H; exact H | exact Hc1]. }
         destruct (existsb (fun e => is_live e && in_slots (f_hook_slots fam) e) es);
-          split; cbn [set_cache cch pv dv training]; rewrite ?Hp, ?Hd;
+          (split; [exact Hl1|]); split; cbn [set_cache cch pv dv training sck]; rewrite ?Hp, ?Hd, ?Hk;
           try (apply drop_Forall); try assumption; intros _; try (apply drop_Forall); assumption.
-  - (* Predict *) cbn [op_ok] in Hok. apply Nat.ltb_lt in Hok. cbn [op_keyed] in Hk.
+  - (* Predict *) cbn [op_ok] in Hok. apply Nat.ltb_lt in Hok.
     destruct (call all_on fam s GNone c) as [s1 es] eqn:H1. cbn [fst].
     destruct (training s) eqn:Htr.
-    + destruct (call_train s GNone c s1 es HI Htr H1) as [_ [_ [Ht Hs1]]].
-      split; [exact Hs1 | rewrite Ht; discriminate].
-    + destruct (call_eval s GNone c s1 es HI Htr Hok Hk H1) as [Hp [Hd [Ht [Hs1 [Hc1 _]]]]].
-      split; [exact Hs1 | intros _; rewrite Hp, Hd; exact Hc1].
+    + destruct (call_train s GNone c s1 es HI Htr H1) as [_ [_ [Ht [Hl1 Hs1]]]].
+      split; [exact Hl1|]. split; [exact Hs1 | rewrite Ht; discriminate].
+    + destruct (call_eval s GNone c s1 es HI Htr (wf_cfg c Hok) H1) as [Hp [Hd [Ht [Hl1 [Hk [Hs1 [Hc1 _]]]]]]].
+      split; [exact Hl1|]. split; [exact Hs1 | intros _; rewrite Hp, Hd, Hk; exact Hc1].
 Qed.
 
 Lemma Inv_init : Inv fam init.
-Proof. split; cbn [init cch]; intros; constructor. Qed.
+Proof. split; [reflexivity|]. split; cbn [init cch]; intros; constructor. Qed.
 
 Lemma Inv_fresh v w tr : Inv fam (fresh v w tr).
-Proof. split; cbn [fresh cch]; intros; constructor. Qed.
+Proof. split; [reflexivity|]. split; cbn [fresh cch]; intros; constructor. Qed.
 
 Lemma Inv_run h : forall s,
-  Inv fam s -> admissible all_on fam s h = true -> keyed_history fam h = true ->
+  Inv fam s -> admissible all_on fam s h = true ->
   Inv fam (run all_on fam s h).
 Proof.
-  induction h as [|o r IH]; intros s HI Ha Hk; cbn [run]; [exact HI|].
+  induction h as [|o r IH]; intros s HI Ha; cbn [run]; [exact HI|].
   cbn [admissible] in Ha. apply andb_prop in Ha. destruct Ha as [Hok Ha].
-  cbn [keyed_history forallb] in Hk. apply andb_prop in Hk. destruct Hk as [Hko Hk].
-  apply IH; [apply Inv_step; assumption | exact Ha | exact Hk].
+  apply IH; [apply Inv_step; assumption | exact Ha].
 Qed.
 
-(* ---- what an eval-mode prediction returns from ANY valid state ---- *)
+(* ---- what an eval-mode prediction returns from ANY valid state: a function of the current
+   versions and the configuration only ---- *)
 Lemma predict_out_eval s c :
-  Inv fam s -> training s = false -> c < f_ncfg fam -> cfg_keyed fam c = true ->
+  Inv fam s -> training s = false -> c < f_ncfg fam ->
   predict_out all_on fam s c =
-    (ST_OK, map (fun u => (u_key u, cur_tag fam (pv s) (dv s) (u_slot u))) (f_uses fam c)).
+    (ST_OK, map (fun u => (u_key u, cur_tag fam (pv s) (dv s) (f_ck fam c) (u_slot u))) (f_uses fam c)).
 Proof.
-  intros HI Htr Hc Hk. unfold predict_out. cbn [step].
+  intros HI Htr Hc. unfold predict_out. cbn [step].
   destruct (call all_on fam s GNone c) as [s1 es] eqn:H1. cbn [snd].
-  destruct (call_eval s GNone c s1 es HI Htr Hc Hk H1) as [_ [_ [_ [_ [_ Hm]]]]].
+  destruct (call_eval s GNone c s1 es HI Htr (wf_cfg c Hc) H1) as [_ [_ [_ [_ [_ [_ [_ Hm]]]]]]].
   rewrite Hm. reflexivity.
 Qed.
 
 Lemma history_independence_gen h c :
-  admissible all_on fam init h = true -> keyed_history fam h = true ->
-  c < f_ncfg fam -> cfg_keyed fam c = true ->
+  admissible all_on fam init h = true ->
+  c < f_ncfg fam ->
   training (run all_on fam init h) = false ->
   predict_out all_on fam (run all_on fam init h) c =
   predict_out all_on fam (fresh (pv (run all_on fam init h)) (dv (run all_on fam init h)) false) c.
 Proof.
-  intros Ha Hk Hc Hck Htr.
-  rewrite (predict_out_eval _ c (Inv_run h init Inv_init Ha Hk) Htr Hc Hck).
-  rewrite (predict_out_eval _ c (Inv_fresh _ _ false) eq_refl Hc Hck).
+  intros Ha Hc Htr.
+  rewrite (predict_out_eval _ c (Inv_run h init Inv_init Ha) Htr Hc).
+  rewrite (predict_out_eval _ c (Inv_fresh _ _ false) eq_refl Hc).
   reflexivity.
 Qed.
+
+(* the same from an arbitrary valid starting state (e.g. a fresh object in any mode) and with the
+   whole trace: EVERY eval-mode prediction inside a history equals the fresh object's *)
+Lemma history_independence_from s h c :
+  Inv fam s -> admissible all_on fam s h = true -> c < f_ncfg fam ->
+  training (run all_on fam s h) = false ->
+  predict_out all_on fam (run all_on fam s h) c =
+  predict_out all_on fam (fresh (pv (run all_on fam s h)) (dv (run all_on fam s h)) false) c.
+Proof.
+  intros HI Ha Hc Htr.
+  rewrite (predict_out_eval _ c (Inv_run h s HI Ha) Htr Hc).
+  rewrite (predict_out_eval _ c (Inv_fresh _ _ false) eq_refl Hc).
+  reflexivity.
+Qed.
+
+(* under the real code the object never loses its data *)
+Lemma never_lost h : admissible all_on fam init h = true -> lost (run all_on fam init h) = false.
+Proof. intros Ha. exact (proj1 (Inv_run h init Inv_init Ha)). Qed.
 End WF.
 
-(* ---- the four concrete families are well formed; exact and KISS-GP key every setting ---- *)
+(* ---- the concrete families are well formed ---- *)
 Lemma wf_exact : wf_family fam_exact = true. Proof. reflexivity. Qed.
 Lemma wf_kiss : wf_family fam_kiss = true. Proof. reflexivity. Qed.
 Lemma wf_sgpr : wf_family fam_sgpr = true. Proof. reflexivity. Qed.
 Lemma wf_var b : wf_family (fam_var b) = true. Proof. destruct b; reflexivity. Qed.
 
-Lemma all_keyed_exact c : cfg_keyed fam_exact c = true.
-Proof. do 4 (destruct c as [|c]; [reflexivity|]). reflexivity. Qed.
-Lemma all_keyed_kiss c : cfg_keyed fam_kiss c = true.
-Proof. do 4 (destruct c as [|c]; [reflexivity|]). reflexivity. Qed.
+(* ==== every observable operation, not only the final prediction ==== *)
 
-Lemma keyed_history_all fam h : (forall c, cfg_keyed fam c = true) -> keyed_history fam h = true.
+(* training-mode calls recompute what they consult: every training-mode consultation is of a slot
+   the variational __call__ has just cleared, and owns its tag *)
+Definition train_use_ok (fam : family) (u : use) : bool :=
+  mem (u_slot u) (f_vs_slots fam) && negb (u_single u) &&
+  match f_parent fam (u_slot u) with None => true | Some _ => false end.
+Lemma obs_eqb_refl l : obs_eqb l l = true.
 Proof.
-  intros H. unfold keyed_history. apply forallb_forall. intros o _. destruct o; try reflexivity. apply H.
+  induction l as [|[k t] r IH]; [reflexivity|]. cbn [obs_eqb]. rewrite Nat.eqb_refl, IH.
+  unfold tag_eqb. rewrite !Nat.eqb_refl. reflexivity.
 Qed.
+
+Section Indep.
+Variable fam : family.
+Hypothesis Hwf : wf_family fam = true.
+
+(* eval mode: every observable operation reports what the fresh object reports *)
+Lemma indep_eval s o :
+  Inv fam s -> training s = false -> op_ok fam s o = true -> indep all_on fam s o = true.
+Proof.
+  intros HI Htr Hok. destruct o; try reflexivity; unfold indep.
+  - (* Prior *)
+    cbn [step]. rewrite Htr. cbn [fresh training].
+    destruct (consult_all all_on fam s (f_ck fam 0) GNone (cch s) (f_prior_uses fam)) as [c2 es2] eqn:H2.
+    destruct (consult_all all_on fam (fresh (pv s) (dv s) false) (f_ck fam 0) GNone
+                (cch (fresh (pv s) (dv s) false)) (f_prior_uses fam)) as [c3 es3] eqn:H3.
+    cbn [snd].
+    pose proof HI as [Hl [Hs Hc]].
+    destruct s as [v w tr cc k lo]. cbn [pv dv training cch sck lost fresh] in *. subst tr lo.
+    destruct (consult_all_cur fam v w k false (f_ck fam 0) GNone (f_prior_uses fam) cc cc k false c2 es2
+                (conj Hs (Hc eq_refl)) (only_wf fam _ (wf_prior fam Hwf))
+                (unguarded_ck_ok fam k (f_ck fam 0) _ (wf_prior fam Hwf)) H2) as [_ Hm2].
+    destruct (consult_all_cur fam v w k false (f_ck fam 0) GNone (f_prior_uses fam) [] [] 0 false c3 es3
+                (conj (Forall_nil _) (Forall_nil _)) (only_wf fam _ (wf_prior fam Hwf))
+                (unguarded_ck_ok fam k (f_ck fam 0) _ (wf_prior fam Hwf)) H3) as [_ Hm3].
+    rewrite Hm2, Hm3. apply obs_eqb_refl.
+  - (* Backward *)
+    cbn [step].
+    destruct (call all_on fam s GLive 0) as [s1 es] eqn:H1.
+    destruct (call all_on fam (fresh (pv s) (dv s) (training s)) GLive 0) as [s2 es2] eqn:H2.
+    rewrite Htr in *. cbn [fresh training].
+    destruct (call_eval fam Hwf s GLive 0 s1 es HI Htr (wf_cfg0 fam Hwf) H1) as [_ [_ [_ [_ [_ [_ [_ Hm1]]]]]]].
+    destruct (call_eval fam Hwf _ GLive 0 s2 es2 (Inv_fresh fam _ _ false) eq_refl (wf_cfg0 fam Hwf) H2)
+      as [_ [_ [_ [_ [_ [_ [_ Hm2]]]]]]].
+    cbn [fresh pv dv] in Hm2.
+    assert (E : forall (b : bool) (X Y : state * (nat * list (nat * tag))),
+              snd (snd X) = map obs es -> snd (snd Y) = map obs es2 ->
+              obs_eqb (snd (snd X)) (snd (snd Y)) = true).
+    { intros _ X Y HX HY. rewrite HX, HY, Hm1, Hm2. apply obs_eqb_refl. }
+    apply (E true).
+    + destruct (existsb is_freed es); reflexivity.
+    + destruct (existsb is_freed es2); reflexivity.
+  - (* Predict *)
+    cbn [op_ok] in Hok. apply Nat.ltb_lt in Hok.
+    fold (predict_out all_on fam s c). fold (predict_out all_on fam (fresh (pv s) (dv s) (training s)) c).
+    rewrite Htr.
+    rewrite (predict_out_eval fam Hwf s c HI Htr Hok).
+    rewrite (predict_out_eval fam Hwf _ c (Inv_fresh fam _ _ false) eq_refl Hok).
+    apply obs_eqb_refl.
+Qed.
+
+(* ---- training mode ---- *)
+Fixpoint uses_nodup (l : list use) : bool :=
+  match l with
+  | [] => true
+  | u :: r => negb (existsb (fun x => (u_slot x =? u_slot u) && (u_key x =? u_key u)) r) && uses_nodup r
+  end.
+
+Lemma lookup_cons_other sl k e c :
+  (e_slot e =? sl) && (e_key e =? k) = false -> lookup sl k (e :: c) = lookup sl k c.
+Proof. intros H. cbn [lookup]. rewrite H. reflexivity. Qed.
+
+Lemma lookup_drop_none l sl k c : mem sl l = true -> lookup sl k (drop l c) = None.
+Proof.
+  intros Hm. induction c as [|e r IH]; [reflexivity|].
+  unfold drop in *. cbn [filter]. destruct (in_slots l e) eqn:Hi; cbn [negb]; [exact IH|].
+  cbn [lookup]. destruct (e_slot e =? sl) eqn:Es; cbn [andb]; [|exact IH].
+  apply Nat.eqb_eq in Es. unfold in_slots in Hi. rewrite Es in Hi. unfold mem in Hm. rewrite Hm in Hi. discriminate.
+Qed.
+
+Lemma consult_all_recomputed pts s ck g us : forall c c' es,
+  forallb (train_use_ok fam) us = true -> uses_nodup us = true ->
+  (forall u, In u us -> lookup (u_slot u) (u_key u) c = None) ->
+  consult_all pts fam s ck g c us = (c', es) ->
+  map obs es = map (fun u => (u_key u, own_tag fam s ck (u_slot u))) us.
+Proof.
+  induction us as [|u r IH]; intros c c' es Hok Hnd Hnone; cbn [consult_all].
+  - intros H. injection H as <- <-. reflexivity.
+  - cbn [forallb] in Hok. apply andb_prop in Hok. destruct Hok as [Hu Hr].
+    cbn [uses_nodup] in Hnd. apply andb_prop in Hnd. destruct Hnd as [Hnu Hndr].
+    unfold train_use_ok in Hu. apply andb_prop in Hu. destruct Hu as [Hu Hpar].
+    apply andb_prop in Hu. destruct Hu as [_ Hsing]. apply negb_true_iff in Hsing.
+    unfold consult at 1. rewrite Hsing. rewrite (Hnone u (or_introl eq_refl)).
+    unfold new_tag. destruct (f_parent fam (u_slot u)); [discriminate|].
+    set (fe := mkEntry (u_slot u) (u_key u) (own_tag fam s ck (u_slot u)) g).
+    destruct (consult_all pts fam s ck g (fe :: c) r) as [c2 es2] eqn:H2.
+    intros H. injection H as <- <-. cbn [map]. f_equal.
+    apply (IH (fe :: c) c2 es2 Hr Hndr); [|exact H2].
+    intros x Hx. rewrite lookup_cons_other; [apply Hnone; right; exact Hx|].
+    cbn [fe e_slot e_key]. apply negb_true_iff in Hnu.
+    destruct ((u_slot u =? u_slot x) && (u_key u =? u_key x)) eqn:E; [|reflexivity].
+    exfalso. apply andb_prop in E. destruct E as [E1 E2]. apply Nat.eqb_eq in E1. apply Nat.eqb_eq in E2.
+    assert (Hex : existsb (fun y => (u_slot y =? u_slot u) && (u_key y =? u_key u)) r = true).
+    { apply existsb_exists. exists x. split; [exact Hx|]. rewrite E1, E2, !Nat.eqb_refl. reflexivity. }
+    rewrite Hex in Hnu. discriminate.
+Qed.
+
+Hypothesis Htu : forallb (train_use_ok fam) (f_train_uses fam) = true.
+Hypothesis Hnd : uses_nodup (f_train_uses fam) = true.
+
+(* what a training-mode call reports: freshly computed entries, whatever the cache held *)
+Lemma call_train_out s g c s1 es :
+  training s = true -> call all_on fam s g c = (s1, es) ->
+  map obs es = map (fun u => (u_key u, own_tag fam s (f_ck fam c) (u_slot u))) (f_train_uses fam).
+Proof.
+  intros Htr. unfold call. rewrite Htr. cbn [p_call p_vs all_on andb].
+  destruct (consult_all all_on fam s (f_ck fam c) GNone (drop (f_vs_slots fam) (cch s)) (f_train_uses fam))
+    as [c2 es2] eqn:H2.
+  intros H. injection H as <- <-.
+  apply (consult_all_recomputed all_on s (f_ck fam c) GNone (f_train_uses fam) (drop (f_vs_slots fam) (cch s)) c2 es2 Htu Hnd); [|exact H2].
+  intros u Hu. apply lookup_drop_none.
+  rewrite forallb_forall in Htu. specialize (Htu u Hu). unfold train_use_ok in Htu.
+  apply andb_prop in Htu. destruct Htu as [Htu' _]. apply andb_prop in Htu'. tauto.
+Qed.
+
+Lemma indep_train s o : training s = true -> indep all_on fam s o = true.
+Proof.
+  intros Htr. destruct o; try reflexivity; unfold indep.
+  - (* Prior *) cbn [step]. rewrite Htr. cbn [fresh training snd]. reflexivity.
+  - (* Backward *)
+    cbn [step].
+    destruct (call all_on fam s GLive 0) as [s1 es] eqn:H1.
+    destruct (call all_on fam (fresh (pv s) (dv s) (training s)) GLive 0) as [s2 es2] eqn:H2.
+    assert (Htr2 : training (fresh (pv s) (dv s) (training s)) = true) by (cbn [fresh training]; exact Htr).
+    rewrite (call_train_out s GLive 0 s1 es Htr H1).
+    rewrite (call_train_out _ GLive 0 s2 es2 Htr2 H2).
+    rewrite Htr. cbn [snd]. apply obs_eqb_refl.
+  - (* Predict *)
+    cbn [step].
+    destruct (call all_on fam s GNone c) as [s1 es] eqn:H1.
+    destruct (call all_on fam (fresh (pv s) (dv s) (training s)) GNone c) as [s2 es2] eqn:H2.
+    assert (Htr2 : training (fresh (pv s) (dv s) (training s)) = true) by (cbn [fresh training]; exact Htr).
+    cbn [snd].
+    rewrite (call_train_out s GNone c s1 es Htr H1).
+    rewrite (call_train_out _ GNone c s2 es2 Htr2 H2).
+    apply obs_eqb_refl.
+Qed.
+
+(* every operation of every admissible history reports exactly what the freshly constructed
+   object holding the same versions (in the same mode) reports: the flag the harness reads *)
+Lemma indep_always s o :
+  Inv fam s -> op_ok fam s o = true -> indep all_on fam s o = true.
+Proof.
+  intros HI Hok. destruct (training s) eqn:Htr; [apply indep_train; exact Htr|].
+  apply indep_eval; assumption.
+Qed.
+
+Lemma trace_indep h : forall s,
+  Inv fam s -> admissible all_on fam s h = true ->
+  Forall (fun r => snd (fst r) = true) (trace all_on fam s h).
+Proof.
+  induction h as [|o r IH]; intros s HI Ha; cbn [trace]; [constructor|].
+  cbn [admissible] in Ha. apply andb_prop in Ha. destruct Ha as [Hok Ha].
+  pose proof (Inv_step fam Hwf s o HI Hok) as HI1.
+  destruct (step all_on fam s o) as [s1 out] eqn:Hst. cbn [fst] in HI1, Ha.
+  constructor; [cbn [fst snd]; apply indep_always; assumption|].
+  apply IH; assumption.
+Qed.
+End Indep.
+
+Lemma wf_train_exact : forallb (train_use_ok fam_exact) (f_train_uses fam_exact) = true /\ uses_nodup (f_train_uses fam_exact) = true.
+Proof. split; reflexivity. Qed.
+Lemma wf_train_var b : forallb (train_use_ok (fam_var b)) (f_train_uses (fam_var b)) = true /\ uses_nodup (f_train_uses (fam_var b)) = true.
+Proof. destruct b; split; reflexivity. Qed.
+
+Lemma wf_train_kiss : forallb (train_use_ok fam_kiss) (f_train_uses fam_kiss) = true /\ uses_nodup (f_train_uses fam_kiss) = true.
+Proof. split; reflexivity. Qed.
+Lemma wf_train_sgpr : forallb (train_use_ok fam_sgpr) (f_train_uses fam_sgpr) = true /\ uses_nodup (f_train_uses fam_sgpr) = true.
+Proof. split; reflexivity. Qed.
 
 (* ---- every invalidation point is needed: counterexamples by computation ---- *)
 Definition differs (pts : points) (fam : family) (h : list op) (c : nat) : bool :=
   let s := run pts fam init h in
-  admissible pts fam init h && keyed_history fam h && cfg_keyed fam c &&
+  admissible pts fam init h && (c <? f_ncfg fam) &&
   negb (obs_eqb (snd (predict_out pts fam s c))
                 (snd (predict_out pts fam (fresh (pv s) (dv s) (training s)) c))).
 
@@ -448,43 +670,29 @@ Lemma dropped_refutes :
   differs (points_without 9) (fam_var true) [OPredict 0; OLoad] 0 = true /\
   differs (points_without 10) fam_kiss [OPredict 1] 2 = true /\
   differs (points_without 11) fam_exact [OPredict 0; OTrain; OStep; OEval] 0 = true /\
+  differs (points_without 12) fam_sgpr [OPredict 0] 3 = true /\
+  differs (points_without 12) fam_sgpr [OPredict 3] 0 = true /\
+  differs (points_without 12) (fam_var true) [OPredict 0] 3 = true /\
+  differs (points_without 12) (fam_var false) [OPredict 3; OPrior] 1 = true /\
+  differs (points_without 13) fam_kiss [OBackward; OFantasy] 0 = true /\
   (bwd_status all_on fam_exact [OPredict 2; OBackward] = ST_OK /\
    bwd_status (points_without 5) fam_exact [OPredict 2; OBackward] = ST_ERR).
 Proof. vm_compute. repeat split. Qed.
 
 Lemma differs_sound pts fam h c : differs pts fam h c = true ->
-  admissible pts fam init h = true /\ keyed_history fam h = true /\ cfg_keyed fam c = true /\
+  admissible pts fam init h = true /\ c < f_ncfg fam /\
   predict_out pts fam (run pts fam init h) c <>
   predict_out pts fam (fresh (pv (run pts fam init h)) (dv (run pts fam init h))
                              (training (run pts fam init h))) c.
 Proof.
   unfold differs. intros H. apply andb_prop in H. destruct H as [H Hd].
-  apply andb_prop in H. destruct H as [H Hc]. apply andb_prop in H. destruct H as [Ha Hk].
+  apply andb_prop in H. destruct H as [Ha Hc].
+  apply Nat.ltb_lt in Hc.
   repeat split; try assumption. intros Heq. rewrite Heq in Hd.
   assert (Hrefl : forall l, obs_eqb l l = true).
   { induction l as [|[k t] r IH]; [reflexivity|]. cbn [obs_eqb]. rewrite Nat.eqb_refl, IH.
     unfold tag_eqb. rewrite !Nat.eqb_refl. reflexivity. }
   rewrite Hrefl in Hd. discriminate.
-Qed.
-
-(* settings that no cache key records: the faithful model is history DEPENDENT when they vary *)
-Lemma sgpr_unkeyed_refuted :
-  exists h c, admissible all_on fam_sgpr init h = true /\ c < f_ncfg fam_sgpr /\
-    training (run all_on fam_sgpr init h) = false /\
-    predict_out all_on fam_sgpr (run all_on fam_sgpr init h) c <>
-    predict_out all_on fam_sgpr (fresh (pv (run all_on fam_sgpr init h)) (dv (run all_on fam_sgpr init h)) false) c.
-Proof.
-  exists [OPredict 3], 0. vm_compute. repeat split; try lia. intros H. discriminate H.
-Qed.
-
-Lemma var_unkeyed_refuted :
-  exists h c, admissible all_on (fam_var true) init h = true /\ c < f_ncfg (fam_var true) /\
-    training (run all_on (fam_var true) init h) = false /\
-    predict_out all_on (fam_var true) (run all_on (fam_var true) init h) c <>
-    predict_out all_on (fam_var true)
-      (fresh (pv (run all_on (fam_var true) init h)) (dv (run all_on (fam_var true) init h)) false) c.
-Proof.
-  exists [OPredict 3], 0. vm_compute. repeat split; try lia. intros H. discriminate H.
 Qed.
 
 Definition ex_hist : list op :=
@@ -494,3 +702,33 @@ Lemma ex_hist_ok :
   pv (run all_on fam_exact init ex_hist) = 2 /\ dv (run all_on fam_exact init ex_hist) = 1 /\
   length (cch (run all_on fam_exact init ex_hist)) = 3.
 Proof. vm_compute. repeat split. Qed.
+
+(* a history through the settings-changing configurations of SGPR and of a variational GP *)
+Definition ex_hist_sgpr : list op := [OPredict 0; OPredict 3; OPredict 2; OSetData; OPredict 3; OPredict 1].
+Definition ex_hist_var : list op := [OPredict 3; OTrain; OPredict 3; OStep; OEval; OPredict 0; OFantasy; OPredict 3].
+Lemma ex_hist_settings_ok :
+  admissible all_on fam_sgpr init ex_hist_sgpr = true /\ training (run all_on fam_sgpr init ex_hist_sgpr) = false /\
+  sck (run all_on fam_sgpr init ex_hist_sgpr) = 0 /\ length (cch (run all_on fam_sgpr init ex_hist_sgpr)) = 4 /\
+  admissible all_on (fam_var true) init ex_hist_var = true /\
+  training (run all_on (fam_var true) init ex_hist_var) = false /\
+  sck (run all_on (fam_var true) init ex_hist_var) = 1 /\
+  length (cch (run all_on (fam_var true) init ex_hist_var)) = 2.
+Proof. vm_compute. repeat split. Qed.
+
+Lemma ex_train_uses_ok :
+  forall fam, In fam [fam_exact; fam_kiss; fam_sgpr; fam_var true; fam_var false] ->
+    forallb (train_use_ok fam) (f_train_uses fam) = true /\ uses_nodup (f_train_uses fam) = true.
+Proof. intros fam [<-|[<-|[<-|[<-|[<-|[]]]]]]; split; reflexivity. Qed.
+Lemma ex_wf_all : wf_family fam_exact = true /\ wf_family fam_kiss = true /\ wf_family fam_sgpr = true /\
+                  wf_family (fam_var true) = true /\ wf_family (fam_var false) = true.
+Proof. repeat split; reflexivity. Qed.
+
+(* the three parts of the invariant theorem as one statement *)
+Lemma valid_caches_invariant fam : wf_family fam = true ->
+    Inv fam init /\
+    (forall s o, Inv fam s -> op_ok fam s o = true -> Inv fam (fst (step all_on fam s o))) /\
+    (forall h, admissible all_on fam init h = true -> Inv fam (run all_on fam init h)).
+Proof.
+  intros H. split; [exact (Inv_init fam)|]. split; [exact (Inv_step fam H)|].
+  intros h. exact (Inv_run fam H h init (Inv_init fam)).
+Qed.
